@@ -308,7 +308,8 @@ type C10Case struct {
 
 func hostileValue(idx int, old uint64, width int, fileLen uint64, recOffsets []uint64, seed uint64) uint64 {
 	tbl := []uint64{0, 1, old - 1, old + 1, 1<<31 - 1, 1 << 31, 1<<32 - 1, 1 << 63, 1<<64 - 1, fileLen, fileLen - 1, fileLen + 1,
-		24, 25, 1<<32 - 8, 1<<32 - 9, 8, 9, old + 9, old - 9, 1 << 16, 1<<24 + 7, 1<<63 - 1, 1<<63 + 1, old * 2, 1 << 27, 1<<31 - 2}
+		24, 25, 1<<32 - 8, 1<<32 - 9, 8, 9, old + 9, old - 9, 1 << 16, 1<<24 + 7, 1<<63 - 1, 1<<63 + 1, old * 2, 1 << 27,
+		1<<64 - 9, 1<<64 - 8, 1<<64 - 10, 1<<64 - 17, 1<<64 - 2, -fileLen, 1<<63 - 9, -(old + 9), 1<<31 - 2}
 	var v uint64
 	switch {
 	case idx < len(tbl):
@@ -327,7 +328,7 @@ func hostileValue(idx int, old uint64, width int, fileLen uint64, recOffsets []u
 	return v
 }
 
-const nHostile = 29
+const nHostile = 37
 
 func putUint(b []byte, width int, v uint64) {
 	switch width {
@@ -655,4 +656,146 @@ func checkC10(c C10Case, st *stats.Collector) error {
 
 func TestC10(t *testing.T) {
 	pk.Run(t, "C10", genC10, checkC10)
+}
+
+// ---- systematic sweep: every numeric field of a few base files x every hostile value x a fixed
+// set of entry configurations. Random mutation reaches a particular (field, value, entry) triple
+// with probability ~1e-5 per case; defects that need exactly one such triple are found here.
+
+type C10Sweep struct {
+	Base  int // index into sweepBases()
+	Field int
+	Val   int
+}
+
+type sweepBase struct {
+	name string
+	file []byte
+}
+
+func sweepBases() []sweepBase {
+	w := wl.Workload{Profile: "p", Library: "l"}
+	w.Ops = append(w.Ops, wl.Op{S: &wl.Schema{ID: 1, Name: "S", Encoding: "e", Data: []byte{1, 2, 3}}},
+		wl.Op{C: &wl.Channel{ID: 1, SchemaID: 1, Topic: "/a", MessageEncoding: "m", Metadata: []wl.KV{{K: "k", V: "v"}}}},
+		wl.Op{C: &wl.Channel{ID: 2, Topic: "/b"}})
+	for i := 0; i < 5; i++ {
+		w.Ops = append(w.Ops, wl.Op{M: &wl.Message{ChannelID: uint16(1 + i%2), Sequence: uint32(i), LogTime: uint64(10 - i), PublishTime: 3, Data: []byte("payload")}})
+		if i == 1 {
+			w.Ops = append(w.Ops, wl.Op{A: &wl.Attachment{LogTime: 5, CreateTime: 6, Name: "att", MediaType: "text/plain", Data: []byte("attachment data")}})
+		}
+		if i == 3 {
+			w.Ops = append(w.Ops, wl.Op{D: &wl.Metadata{Name: "md", Metadata: []wl.KV{{K: "a", V: "b"}}}})
+		}
+	}
+	var out []sweepBase
+	for _, k := range []wl.Config{
+		{IncludeCRC: true},
+		{Chunked: true, ChunkSize: 60, IncludeCRC: true},
+		{Chunked: true, ChunkSize: 60, Compression: "zstd", IncludeCRC: true},
+		{Chunked: true, ChunkSize: 60, Compression: "lz4", IncludeCRC: true},
+	} {
+		f, _, err := mc.WriteBytes(&w, k)
+		if err == nil {
+			out = append(out, sweepBase{fmt.Sprintf("go-writer chunked=%v compression=%q", k.Chunked, k.Compression), f})
+		}
+	}
+	f, _, err := specenc.Encode(&w, specenc.Layout{Chunked: true, CutAfter: []int{5, 8}, MessageIndex: true, IndexAllChannels: true, ChunkIndex: true, RepeatSchemas: true, RepeatChannels: true,
+		Statistics: true, AttachmentIndex: true, MetadataIndex: true, SummaryOffsets: true, CRC: true, Pad: []byte{1, 2, 3}, RepeatDefs: 1})
+	if err == nil {
+		out = append(out, sweepBase{"reference encoder, padded, repeated definitions", f})
+	}
+	return out
+}
+
+var sweepEntries = []struct {
+	entry int
+	opts  uint32
+	aux   uint64
+}{
+	{entryLexer, 0, 0}, {entryLexer, loValidate, 0}, {entryLexer, loNoCallback, 0}, {entryLexer, loNoCallback | loValidate | loEmitInvalid, 0}, {entryLexer, loEmitChunks, 0},
+	{entryLexer, loValidate | loLimit1K | loAttCRC, 0},
+	{entryReader, 0, 9}, {entryReader, 1 | 16, 1<<64 - 9}, {entryReader, 2 | 4 | 8, 0}, {entryReader, 3 | 16, 1 << 63},
+}
+
+func sweepValue(idx int, old uint64, width int, fileLen uint64, recOffsets []uint64) (uint64, bool) {
+	if idx == nHostile-1 { // the 2 GiB-minus-two allocation is left to the random part
+		return 0, false
+	}
+	return hostileValue(idx, old, width, fileLen, recOffsets, 8), true
+}
+
+func enumC10Sweep(yield func(C10Sweep) bool) {
+	sh, n := shardInfo()
+	bases := sweepBases()
+	sel := []int{int(seedInt()) % len(bases)}
+	if pk.Thorough() {
+		sel = nil
+		for i := range bases {
+			sel = append(sel, i)
+		}
+	}
+	k := 0
+	for _, bi := range sel {
+		d, err := specdec.Decode(bases[bi].file, specdec.Options{})
+		if err != nil {
+			continue
+		}
+		nf := len(specdec.Fields(d))
+		for f := 0; f < nf; f++ {
+			for v := 0; v < nHostile-1; v++ {
+				k++
+				if k%n != sh {
+					continue
+				}
+				if !yield(C10Sweep{bi, f, v}) {
+					return
+				}
+			}
+		}
+	}
+}
+
+func checkC10Sweep(c C10Sweep, st *stats.Collector) error {
+	bases := sweepBases()
+	if c.Base >= len(bases) {
+		return nil
+	}
+	b := bases[c.Base]
+	d, err := specdec.Decode(b.file, specdec.Options{})
+	if err != nil {
+		return pk.Failf("harness", "base file does not decode: %v", err)
+	}
+	fs := specdec.Fields(d)
+	if c.Field >= len(fs) {
+		return nil
+	}
+	f := fs[c.Field]
+	var recOffsets []uint64
+	for _, r := range d.Records {
+		recOffsets = append(recOffsets, r.Offset)
+	}
+	input := append([]byte{}, b.file...)
+	old := getUint(input[f.Off:], f.Width)
+	v, ok := sweepValue(c.Val, old, f.Width, uint64(len(input)), recOffsets)
+	if !ok || v == old {
+		return nil
+	}
+	putUint(input[f.Off:], f.Width, v)
+	what := fmt.Sprintf("%s: %s.%s (%s, in chunk=%v) at %d: %d -> %d", b.name, opName(f.Op), f.Name, f.Kind, f.InChunk, f.Off, old, v)
+	for _, e := range sweepEntries {
+		cc := C10Case{Entry: e.entry, Opts: e.opts, Aux: e.aux}
+		o := worker().Call(isolate.Req{Entry: uint16(e.entry), Opts: e.opts, Aux: e.aux, Input: input}, 10*time.Second, 60*time.Second)
+		if err := judgeHostile("C10", fmt.Sprintf("%s on (%s)", entryLabel(&cc), what), o, allocCeiling(&cc, input)); err != nil {
+			return err
+		}
+	}
+	st.Case(wl.Hash(c), true, len(sweepEntries), "sweep:"+f.Kind)
+	if st.WantSample() && c.Val%7 == 3 {
+		st.Sample(map[string]any{"sweep": what, "entries": len(sweepEntries)})
+	}
+	return nil
+}
+
+func TestC10Sweep(t *testing.T) {
+	pk.RunEnum(t, "C10s", enumC10Sweep, checkC10Sweep)
 }
